@@ -1135,6 +1135,10 @@ func (s *Store[K, V]) Recover(version uint64, reader io.Reader) error {
 				return VersionMismatch
 			}
 			s.timerwheel.clock.SetStart(m.StartNano)
+			// the cached clock counts from the origin: with the origin moved it is
+			// stale by the uptime of the saved cache, and reads would judge the
+			// restored deadlines against it until the next maintenance tick
+			s.timerwheel.clock.RefreshNowCache()
 			s.policy.sketch.EnsureCapacity(uint(m.Total))
 			// same cache size: take over the region sizes the lists were saved
 			// under, otherwise whatever the climber had added to a region would
